@@ -88,10 +88,10 @@ Proof.
       { apply rollover_sound in Er. unfold size_okP. destruct Er as [Er|[_ Er]]; lia. }
       assert (Hfull : changed = false -> fullP (p_shard p)).
       { intros Hch. rewrite Hch in Er. apply rollover_nochange in Er. unfold fullP. lia. }
-      cbn [w_prog w_closed w_next p_shard p_written sh_id sh_ex sh_n sh_meta fresh_shard].
+      cbn [w_prog w_closed w_next p_shard p_written sh_id sh_ex sh_n sh_meta sh_vals fresh_shard].
       destruct cm as [o|]; [destruct (meta_truthy (hget h o))|];
-        cbn [w_prog w_closed w_next p_shard p_written sh_id sh_ex sh_n sh_meta fresh_shard];
-        destruct ok; cbn [fst w_prog w_closed w_next p_shard p_written sh_id sh_ex sh_n sh_meta fresh_shard];
+        cbn [w_prog w_closed w_next p_shard p_written sh_id sh_ex sh_n sh_meta sh_vals fresh_shard];
+        destruct ok; cbn [fst w_prog w_closed w_next p_shard p_written sh_id sh_ex sh_n sh_meta sh_vals fresh_shard];
         (constructor; cbn [f_open f_closed f_changed f_order];
          [ intros s' p'; unfold upd_open; destruct (split_eqb_spec s' s) as [->|Hne];
            [ intros H; injection H as <-; unfold prog_ok; simpl; lia | apply Ho ]
@@ -109,8 +109,8 @@ Proof.
       { destruct (le_lt_dec eps (p_written p)) as [Hge|Hlt]; [|exact Hlt].
         rewrite (rollover_full _ _ changed Hge) in Er. discriminate. }
       destruct cm as [o|]; [destruct (meta_truthy (hget h o))|];
-        cbn [w_prog w_closed w_next p_shard p_written sh_id sh_ex sh_n sh_meta];
-        destruct ok; cbn [fst w_prog w_closed w_next p_shard p_written sh_id sh_ex sh_n sh_meta];
+        cbn [w_prog w_closed w_next p_shard p_written sh_id sh_ex sh_n sh_meta sh_vals];
+        destruct ok; cbn [fst w_prog w_closed w_next p_shard p_written sh_id sh_ex sh_n sh_meta sh_vals];
         (constructor; cbn [f_open f_closed f_changed f_order];
          [ intros s' p'; unfold upd_open; destruct (split_eqb_spec s' s) as [->|Hne];
            [ intros H; injection H as <-; unfold prog_ok; simpl; rewrite ?app_length; simpl; lia | apply Ho ]
@@ -127,8 +127,8 @@ Proof.
     assert (Hnew : NoDup (f_order st ++ [s])).
     { apply NoDup_app_single; [exact Hn | apply Hord; exact Eop]. }
     destruct cm as [o|]; [destruct (meta_truthy (hget h o))|];
-      cbn [w_prog w_closed w_next p_shard p_written sh_id sh_ex sh_n sh_meta fresh_shard];
-      destruct ok; cbn [fst w_prog w_closed w_next p_shard p_written sh_id sh_ex sh_n sh_meta fresh_shard];
+      cbn [w_prog w_closed w_next p_shard p_written sh_id sh_ex sh_n sh_meta sh_vals fresh_shard];
+      destruct ok; cbn [fst w_prog w_closed w_next p_shard p_written sh_id sh_ex sh_n sh_meta sh_vals fresh_shard];
       (constructor; cbn [f_open f_closed f_changed f_order];
        [ intros s' p'; unfold upd_open; destruct (split_eqb_spec s' s) as [->|Hne];
          [ intros H; injection H as <-; unfold prog_ok; simpl; lia | apply Ho ]
